@@ -6,6 +6,7 @@ package providers
 // ---- Google -------------------------------------------------------------------------------------------
 // The identity provider's answer is the environment: arbitrary status, arbitrary body.
 //@ func (p *GoogleProvider) googleRequest(method string, endpoint string, params url.Values, tags []string, response interface{}) error
+//@   requires endpoint_is_a_rendered_url: urlParses(endpoint)
 //@   modifies pointee(response), clock
 //@   let answered = called(@Do#1) && @Do#1.1 == nil && called(@ReadAll#1) && @ReadAll#1.1 == nil
 //@   ensures [C10] ok_needs_200: result == nil ==> answered && at(@Do#1, @Do#1.0.StatusCode) == 200
@@ -44,6 +45,7 @@ package providers
 //@   ensures [C10] no_session_on_error: result.1 != nil ==> result.0 == nil
 
 //@ func (p *OktaProvider) oktaRequest(method string, endpoint string, params url.Values, tags []string, header http.Header, response interface{}) error
+//@   requires endpoint_is_a_rendered_url: urlParses(endpoint)
 //@   modifies pointee(response), clock
 //@   let answered = called(@Do#1) && @Do#1.1 == nil && called(@ReadAll#1) && @ReadAll#1.1 == nil
 //@   ensures [C10] ok_needs_200: result == nil ==> answered && at(@Do#1, @Do#1.0.StatusCode) == 200
@@ -56,6 +58,7 @@ package providers
 
 // ---- Amazon Cognito -----------------------------------------------------------------------------------
 //@ func (p *AmazonCognitoProvider) amazonCognitoRequest(method string, endpoint string, params url.Values, tags []string, header http.Header, basicAuth bool, response interface{}) error
+//@   requires endpoint_is_a_rendered_url: urlParses(endpoint)
 //@   modifies pointee(response), clock
 //@   let answered = called(@Do#1) && @Do#1.1 == nil && called(@ReadAll#1) && @ReadAll#1.1 == nil
 //@   ensures [C10] ok_needs_200: result == nil ==> answered && at(@Do#1, @Do#1.0.StatusCode) == 200
@@ -86,6 +89,7 @@ package providers
 
 //@ interface Provider.Data() *ProviderData
 //@   modifies nothing
+//@   ensures result != nil
 
 // ---- C19: revocation: nil exactly when the identity provider said ok or "already revoked" --------------
 //@ func (p *GoogleProvider) Revoke(s *sessions.SessionState) error
@@ -141,14 +145,14 @@ package providers
 //@ func (p *SingleFlightProvider) ValidateSessionState(s *sessions.SessionState) bool
 //@   let G = old(p.single)
 //@   let before_runs = old(p.single.$runs)
-//@   ensures [C16] keyed_on_access_token: called(@do#1) && arg(@do#1, 1) == "ValidateSessionState" && arg(@do#1, 2) == old(s.AccessToken)
+//@   ensures [C16 C09] keyed_on_access_token: called(@do#1) && arg(@do#1, 1) == "ValidateSessionState" && arg(@do#1, 2) == old(s.AccessToken)
 //@   ensures [C16] answer_is_the_executions: result ==> @do#1.1 == nil && typeis(@do#1.0, "bool") && unbox(@do#1.0, "bool")
 //@   ensures [C16] merged_caller_gets_the_session_updates: result ==> G.$runs == before_runs + 1
 
 //@ func (p *SingleFlightProvider) RefreshSessionIfNeeded(s *sessions.SessionState) (bool, error)
 //@   let G = old(p.single)
 //@   let before_runs = old(p.single.$runs)
-//@   ensures [C16] keyed_on_refresh_token: called(@do#1) && arg(@do#1, 1) == "RefreshSessionIfNeeded" && arg(@do#1, 2) == old(s.RefreshToken)
+//@   ensures [C16 C09] keyed_on_refresh_token: called(@do#1) && arg(@do#1, 1) == "RefreshSessionIfNeeded" && arg(@do#1, 2) == old(s.RefreshToken)
 //@   ensures [C16] answer_is_the_executions: result.1 == nil ==> @do#1.1 == nil && typeis(@do#1.0, "bool") && result.0 == unbox(@do#1.0, "bool")
 //@   ensures [C16] error_passed_on: @do#1.1 != nil ==> !result.0 && result.1 == @do#1.1
 //@   ensures [C16] merged_caller_gets_the_session_updates: result.0 ==> G.$runs == before_runs + 1
@@ -340,3 +344,10 @@ package providers
 //@   fresh result
 //@   fresh result.single
 //@   ensures [C16] wraps_the_given_provider_with_a_flight_group_of_its_own: result.provider == provider && result.single != nil
+
+// The profile is what the userinfo call decoded, in an object of its own — or an error, never neither.
+//@ func (p *OktaProvider) GetUserProfile(AccessToken string) (*GetUserProfileResponse, error)
+//@   modifies clock
+//@   fresh result.0
+//@   ensures [C10 C09] profile_or_error: (result.1 == nil ==> result.0 != nil && called(@oktaRequest#1) && @oktaRequest#1 == nil) && (result.1 != nil ==> result.0 == nil)
+//@   ensures [C10] asked_with_this_token: called(@oktaRequest#1) ==> arg(@oktaRequest#1, 1) == "GET" && AccessToken != ""
